@@ -1,6 +1,6 @@
 \* exhaustive (quick): 3 temperatures, 4 kind pairs (those not in the quick emission run) x 1 construction, every behaviour of up to 3 calls
 CONSTANTS NT = 3  NV = 1  MaxLevel = 3
-  KindChoices <- McKindsQuick  TempChoices <- McTempsOne  LinkPairs <- McLinks  RampSteps <- McRamp
+  KindChoices <- McKindsQuick  TempChoices <- McTempsOne  LinkPairs <- McLinks  RampSteps <- McRamp  AuxChoices <- McAuxFour
 INIT Init
 NEXT NextB
 CONSTRAINT Bound
@@ -8,6 +8,7 @@ VIEW View
 INVARIANT TypeOK
 INVARIANT LinksAcyclic
 INVARIANT PathIndependent
+INVARIANT AuxScaleWithDensities
 INVARIANT DensityShrinksBySquare
 INVARIANT DimensionLaw
 INVARIANT AreaGrowsBySquare
